@@ -175,7 +175,9 @@ impl World {
         let mut parties = vec![];
         let mut addrs = vec![("aL".to_string(), laddr)];
         for (i, name) in ["p1", "p2", "p3", "A"].iter().enumerate() {
-            let key = mk_key(0x21 + i as u8 * 0x10);
+            // p3 is an Ed25519 identity: it can be named, challenged and impersonated like any node, but the crate's handshake (ECDH,
+            // id-signature) only works for secp256k1 keys, so p3 itself never completes one
+            let key = if *name == "p3" { CombinedKey::ed25519_from_bytes(&mut [0x41u8; 32]).unwrap() } else { mk_key(0x21 + i as u8 * 0x10) };
             let d = if *name == "A" { 66 } else { i as u8 + 1 };
             let a = sock(d, 9001 + i as u16);
             let ab = sock(d, 9011 + i as u16);
